@@ -38,18 +38,28 @@ def gen_program(rng, counters):
         if r < 0.22:
             # a struct opens its own scope and restores the previous one
             sname = f"S{gi}{len(items)}"
+            # field names come from the same pool as the local labels of the surrounding scope, and the
+            # same local spelling is used just before, inside and just after the struct
+            fa = rng.choice(["x", "y", "z"]) + str(rng.randint(0, 2))
+            fb = rng.choice([n for n in ("x0", "y1", "z2", "fb") if n != fa])
+            if rng.random() < 0.6:
+                items.append(["@dw ", N(scope, fa), " + 1 & $ffff"])
             items.append([f"@struct {sname}"])
-            items.append(["  fa @db"])
-            items.append(["  fb ", N(sname, "fa"), " + 2"])
+            items.append([f"  {fa} @db"])
+            items.append([f"  {fb} ", N(sname, fa), " + 2"])
             counters["expr"] += 1
             items.append(["@endstruct"])
+            if rng.random() < 0.6:
+                items.append(["@dw ", N(scope, fa), " + 2 & $ffff"])
             continue
         loc = rng.choice(["x", "y", "z"]) + str(rng.randint(0, 2))
         pos = rng.choice(POSITIONS)
         have = (scope, loc) in defined
-        if pos == "define" and not have:
+        if pos == "define" and (not have or rng.random() < 0.1):
+            # (one time in ten a name that already exists: both spellings must be rejected alike)
             items.append([N(scope, loc), ":"])
-            defined.append((scope, loc))
+            if not have:
+                defined.append((scope, loc))
         elif pos == "expr":
             items.append(["@dw ", N(scope, loc), " + 1 & $ffff"])
         elif pos == "sizeof":
@@ -138,6 +148,10 @@ def run(tier, seed):
         ("@struct S\n f 1\n@endstruct\n@undef .f\n", None),
         ("@struct S\n f 1\n@endstruct\n@struct T\n h 1\n@endstruct\n@db .h\n", None),
         ("@macro M, 0\n@db .q\n@endmacro\nM\n", None),
+        ("g:\n.x:\n@db 1\n.x:\n", "g:\ng.x:\n@db 1\ng.x:\n"),
+        ("g:\n@defn .x, 5\n.x:\n", "g:\n@defn g.x, 5\ng.x:\n"),
+        ("g:\n.x:\ng.x:\n", "g:\ng.x:\ng.x:\n"),
+        ("g:\n.len:\n lda #.len\n@struct H\n len 2\n body .len + 4\n@endstruct\n@db H, .len\n", "g:\ng.len:\n lda #g.len\n@struct H\n len 2\n body H.len + 4\n@endstruct\n@db H, g.len\n"),
         ("a1:\n.x:\n@db 1\nb1:\n.x:\n@db 2\n@dw a1.x, b1.x\n", "a1:\na1.x:\n@db 1\nb1:\nb1.x:\n@db 2\n@dw a1.x, b1.x\n"),
         ("g1:\n@struct S\n f @db\n@endstruct\n.x:\n@dw .x\n", "g1:\n@struct S\n f @db\n@endstruct\ng1.x:\n@dw g1.x\n"),
     ]
